@@ -278,6 +278,13 @@ func runC03(c *Ctx, r *Report, tier string) {
 		}
 		r.Check(ok, "PASSAFTER", pn, "token first, then tail", c.ipos(in), "the tail append is reachable only through addArgs(current token)", "the tail can be appended without (or before) the current token")
 		r.Check(leaves(in), "PASSAFTER", pn, "loop left after passing the tail", c.ipos(in), "break", "parsing continues after the tail was passed through")
+		// `--` under PassDoubleDash never gets here: the terminator is recognised first
+		_, tf := c.Requires(pa, isInstr(in), anyLit(litHas(false, "nonzero((Parser.Options(P0) & PassDoubleDash))"), litHas(false, `eq("--", call:(*parseState).pop(`)), nil)
+		r.Check(tf, "PASSAFTER", pn, "the terminator is recognised before the pass-after test", c.ipos(in), "REQ(¬PassDoubleDash ∨ token ≠ \"--\")", "with both options set a `--` token is passed through as an ordinary argument instead of ending option parsing")
+	}
+	for _, in := range c.instrs(pa, c.isCallTo("(*Parser).parseNonOption")) {
+		_, tf := c.Requires(pa, isInstr(in), anyLit(litHas(false, "nonzero((Parser.Options(P0) & PassDoubleDash))"), litHas(false, `eq("--", call:(*parseState).pop(`)), nil)
+		r.Check(tf, "TERMINATOR", pn, "the terminator never reaches non-option handling", c.ipos(in), "parseNonOption REQ(¬PassDoubleDash ∨ token ≠ \"--\")", "a `--` token can be handled as a non-option although PassDoubleDash is set")
 	}
 	r.Check(nPA == 1, "PASSAFTER", pn, "pass-after site", c.pos(pa.Pos()), "one", fmt.Sprintf("%d", nPA))
 	// requeue
@@ -366,6 +373,11 @@ func runC10(c *Ctx, r *Report, tier string) {
 				}
 			}
 			r.Check(okE, "ORDER", hn, "appended element is the Arg just built", c.ipos(s.Store), "the Arg literal of field i", "appended element is not the Arg literal")
+			// only exported fields become positionals (an unexported one cannot be set; it would swallow a token and shift the rest)
+			_, okX := c.Requires(h, isInstr(s.Store), func(l Lit) bool {
+				return !l.Pos && strings.HasPrefix(l.Term, "nonempty(StructField.PkgPath(")
+			}, nil)
+			r.Check(okX, "ORDER", hn, "unexported fields are skipped", c.ipos(s.Store), "append REQ(field.PkgPath == \"\")", "an unexported (possibly embedded) field of the positional struct becomes a positional argument")
 		}
 	}
 	for _, name := range []string{"(*Command).fillParseState", "(*Command).Args"} {
@@ -423,6 +435,10 @@ func runC10(c *Ctx, r *Report, tier string) {
 	}
 
 	// UNDISTURBED
+	c.whoStores(r, "UNDISTURBED", "parseState", "retargs", map[string]string{
+		"(*Parser).ParseArgs":   "makeslice[[]string](0)",
+		"(*parseState).addArgs": "append(parseState.retargs(P0), ",
+	}) // every unconsumed token passes through addArgs: none bypasses the pending positional fields
 	c.whoStores(r, "UNDISTURBED", "parseState", "positional", map[string]string{
 		"(*Command).fillParseState":    "makeslice[[]*Arg](len(Command.args(P0)))",
 		"(*parseState).addArgs":        "slice(parseState.positional(P0), 1, _)",
